@@ -156,6 +156,45 @@ def ok_literals(n):
     return vals
 
 
+# ---- frozen list of may-panic externals (DESIGN Appendix B); matched on resolved callee paths
+PANIC_EXACT_SUFFIX = (
+    "Option::<T>::unwrap", "Option::<T>::expect", "Result::<T, E>::unwrap", "Result::<T, E>::expect",
+    "Result::<T, E>::unwrap_err", "Result::<T, E>::expect_err",
+    "::split_at", "::split_at_mut", "::copy_from_slice", "::clone_from_slice", "::swap", "::rotate_left", "::rotate_right",
+    "Vec::<T, A>::remove", "Vec::<T, A>::insert", "Vec::<T, A>::swap_remove", "Vec::<T, A>::drain", "Vec::<T, A>::split_off",
+    "String::remove", "String::insert", "String::drain", "String::split_off", "String::insert_str",
+    "SmallVec::<A>::remove", "SmallVec::<A>::insert", "SmallVec::<A>::swap_remove", "SmallVec::<A>::drain",
+    "RefCell::<T>::borrow", "RefCell::<T>::borrow_mut",
+    "::chunks", "::chunks_exact", "::chunks_mut", "::chunks_exact_mut", "::windows",
+    "BytesMut::split_to", "BytesMut::split_off", "Bytes::split_to", "Bytes::split_off", "Bytes::slice",
+    "VecDeque::<T, A>::remove", "Instant::sub", "Handle::current", "block_in_place",
+)
+PANIC_PREFIX = ("core::panicking::", "std::rt::begin_panic", "core::option::expect_failed", "core::option::unwrap_failed",
+                "core::result::unwrap_failed")
+PANIC_INDEX_DECL = ("core::ops::index::Index::index", "core::ops::index::IndexMut::index_mut")
+PANIC_BUF = re.compile(r"bytes::buf::buf_impl::Buf::(get_[uif]\d+(_le|_ne)?|get_u?int(_le)?|advance|copy_to_bytes|copy_to_slice)$")
+PANIC_BYTEORDER = re.compile(r"byteorder::ByteOrder(>)?::(read|write)_\w+$")
+
+
+def panic_callee(resolved, declared):
+    """classify a callee as a may-panic external; returns a short kind or None"""
+    r = resolved or ""
+    d = declared or ""
+    for p in PANIC_PREFIX:
+        if r.startswith(p) or d.startswith(p):
+            return "panic"
+    if d in PANIC_INDEX_DECL or r in PANIC_INDEX_DECL:
+        return "index"
+    if PANIC_BUF.search(d) or PANIC_BUF.search(r):
+        return "buf"
+    if PANIC_BYTEORDER.search(d) or PANIC_BYTEORDER.search(r):
+        return "byteorder"
+    for s in PANIC_EXACT_SUFFIX:
+        if r.endswith(s) or d.endswith(s):
+            return s.split("::")[-1]
+    return None
+
+
 def contains_call(n, suffix):
     return any(c and c.endswith(suffix) for c, _ in H.calls(n))
 
